@@ -344,8 +344,8 @@ impl<'b, 'a> Parser<'a, 'b> {
     ///
     /// In practice this is useful when missing things like semis or braces.
     pub(crate) fn err_before_ws(&mut self, error: impl Into<String>) {
-        let pos = self.buf[0].start_pos;
-        self.raw_error(pos..pos + 1, error);
+        let range = self.range_before_ws();
+        self.raw_error(range, error);
     }
 
     /// Write a *warning* before the whitespace of the associated token.
@@ -353,9 +353,19 @@ impl<'b, 'a> Parser<'a, 'b> {
     /// This only exists so we can warn if a semi is missing after an include
     /// statement (which is common in the wild)
     pub(crate) fn warn_before_ws(&mut self, error: impl Into<String>) {
-        let pos = self.buf[0].start_pos;
-        let diagnostic = Diagnostic::warning(FileId::CURRENT_FILE, pos..pos + 1, error);
+        let range = self.range_before_ws();
+        let diagnostic = Diagnostic::warning(FileId::CURRENT_FILE, range, error);
         self.sink.error(diagnostic);
+    }
+
+    /// The range of the first character after the previous token.
+    ///
+    /// This is empty at the end of the input, and covers the whole character
+    /// if it is more than one byte long.
+    fn range_before_ws(&self) -> Range<usize> {
+        let pos = self.buf[0].start_pos;
+        let len = self.text[pos..].chars().next().map_or(0, char::len_utf8);
+        pos..pos + len
     }
 
     /// consume if the token matches, otherwise error without advancing
